@@ -17,6 +17,7 @@ def strip_ext(s):
 
 class Prop(BaseProp):
     ID = "C12"
+    ANCHORS = ['cminx:document_single_file', 'cminx.documenter:Documenter.process_docs', 'cminx.aggregator:DocumentationAggregator.enterDocumented_module', 'cminx.rstwriter:Heading.build_heading_string']
     LEVEL = "exploration"
     RULE = ("directory inputs (trees of depth 0-4) and single-file inputs (relative/absolute path, several working "
             "directories) x prefix (absent, -p, config file) x 8 separators x both extension options x 8 header "
